@@ -258,6 +258,46 @@ def split_case():
     return Case(cid, run, functions=["Reaction.split"])
 
 
+def eqconst_mixed_case(dict_side):
+    """one constant scalar, the other per-environment"""
+    cid = "equilibrium_constant/mixed-%s-per-environment" % dict_side
+    P = "C19/" + cid
+
+    def run(api):
+        n = api.int("n", 0, 8)
+        m = api.int("m", 0, 8)
+        us = mk_system(api, "rs")
+        sc, a, d = api.real("k_scalar"), api.real("k_ea"), api.real("k_default")
+        dct = {"ea": a, "default": d}
+        if dict_side == "kr":
+            r = make_reaction(api, n, m, kf=sc, kr=dct, units_system=us)
+            exp = {"ea": (sc, a), "default": (sc, d)}
+        else:
+            r = make_reaction(api, n, m, kf=dct, kr=sc, units_system=us)
+            exp = {"ea": (a, sc), "default": (d, sc)}
+        out = api.call(lambda: r.equilibrium_constant())
+        api.check(P + "/ok", out.ok, "raised %r" % (out.exc,))
+        if not out.ok:
+            return
+        K = out.value
+        api.check(P + "/is_dict", isinstance(K, dict))
+        if not isinstance(K, dict):
+            return
+        api.check(P + "/keys", sorted(K.keys()) == sorted(exp.keys()))
+        for e, (f_, r_) in exp.items():
+            if e not in K:
+                continue
+            if K[e] is None:
+                api.check(P + "/none_only_if_kr_zero", api.eq(r_, 0))
+            else:
+                api.check(P + "/none_if_kr_zero", api.not_(api.eq(r_, 0)))
+                sc_f = Q.scale(api, us, r.kf_units_dimensions())
+                sc_r = Q.scale(api, us, r.kr_units_dimensions())
+                api.check(P + "/ratio", api.eq(Q.si(api, K[e]) * (api.num(r_) * sc_r), api.num(f_) * sc_f))
+
+    return Case(cid, run, functions=["Reaction.equilibrium_constant", "get_value_in_env"])
+
+
 def eqconst_case(per_env):
     cid = "equilibrium_constant/%s" % ("per-environment" if per_env else "scalar")
     P = "C19/" + cid
@@ -327,4 +367,5 @@ def network_case():
 
 
 CASES = [parse_case(w, c) for w in ("left", "right") for c in range(NCHUNK)] + [malformed_case(), setter_case(), split_case(),
-         eqconst_case(False), eqconst_case(True), network_case()]
+         eqconst_case(False), eqconst_case(True), eqconst_mixed_case("kr"), eqconst_mixed_case("kf"),
+         network_case()]
